@@ -72,7 +72,138 @@ def _oracle(case, est=None):
     Xr2 = np.asarray(est2.inverse_transform(Xt2), dtype=float)
     if Xr2.shape != np.asarray(Xr).shape or not np.allclose(Xr2, np.asarray(Xr, dtype=float), rtol=1e-9, atol=1e-9):
         return 'round trip of a DataFrame differs from the round trip of the same data as an array'
+    try:
+        return _routes(case, est, X, Xt, Xr)
+    except Exception as ex:      # the state-only / input-only / episode-flag routes must not raise on valid data either
+        return f'lift / retract route raised {type(ex).__name__}: {ex}'
+
+
+def gain(spec):
+    """samples per episode that the inverse rebuilds from the delay coordinates (own arithmetic: a delay stage folds
+    max(dx, du) samples away and its inverse recovers min(dx, du) of them; chains add; a split re-joins its branches
+    on the trailing samples, i.e. on the smaller branch)"""
+    k = spec['k']
+    if k == 'delay':
+        return min(spec['dx'], spec['du'])
+    if k == 'split':
+        return min(sum(gain(s) for s in spec['a']), sum(gain(s) for s in spec['b']))
+    if k == 'pipe':
+        return sum(gain(s) for s in spec['ss'])
+    return 0
+
+
+def both_delays(spec):
+    """some delay stage with state AND input delays >= 1 (the inverse then rebuilds earlier samples)"""
+    if spec['k'] == 'delay' and spec['dx'] >= 1 and spec['du'] >= 1:
+        return True
+    return any(both_delays(s) for key in ('a', 'b', 'ss') for s in spec.get(key, []))
+
+
+def route_tags(case):
+    """coverage categories of the state-only / input-only / episode-flag routes"""
+    t = ['routes:all']
+    if gain(case['spec']) >= 1:
+        t.append('routes:inverse-rebuilds-samples')
+    if both_delays(case['spec']):
+        t.append('routes:delay-state-and-input>=1')
+    if st.eq_delays(case['spec']) and pipes.loss(case['spec']) >= 1:
+        t.append('routes:equal-nonzero-delays')
+    t.append('routes:flag-differs-fitted-' + ('with' if case['ep'] else 'without') + '-episode-feature')
+    return t
+
+
+def _same(A, B, exact):
+    A, B = np.asarray(A, dtype=float), np.asarray(B, dtype=float)
+    if A.shape != B.shape:
+        return False
+    return np.array_equal(A, B) if exact else np.allclose(A, B, rtol=1e-9, atol=1e-9)
+
+
+def _tails(name, R, want, ep, r_of, exact):
+    """R (returned by a retract route) holds, per episode of `want` (the original columns), exactly r_of[label] trailing
+    samples of that episode"""
+    R = np.asarray(R, dtype=float)
+    if R.ndim != 2 or R.shape[1] != np.asarray(want).shape[1]:
+        return f'{name}: returned shape {R.shape}, original columns have shape {np.asarray(want).shape}'
+    eps_w, eps_r = st.episodes(want, ep), st.episodes(R, ep)
+    if sorted(eps_w) != sorted(eps_r):
+        return f'{name}: episodes {sorted(eps_r)} returned, episodes {sorted(eps_w)} given'
+    for l, W in eps_w.items():
+        n, r, got = W.shape[0], r_of[l], eps_r[l].shape[0]
+        if got != r:
+            return (f'{name}: episode {l} has {n} samples, inverse_transform(transform(X)) returns its trailing {r}, '
+                    f'this route returns {got}')
+        if not _same(eps_r[l], W[n - r:, :], exact):
+            return (f'{name}: episode {l} differs from its trailing {r} original samples '
+                    f'(max err {np.max(np.abs(eps_r[l] - W[n - r:, :])) if r else 0:.3g})')
     return None
+
+
+def _routes_on(name, est, X, ep, nx, spec, exact, exact_lift):
+    """lift / retract / lift_state / retract_state / lift_input / retract_input, called with episode flag `ep` on data X
+    (ep is passed explicitly; it may differ from the flag the estimator was fitted with). Expected values are the
+    original columns themselves; expected sample counts come from own delay arithmetic."""
+    X = np.asarray(X, dtype=float)
+    e = 1 if ep else 0
+    eps = st.episodes(X, ep)
+    r_of = {l: Xe.shape[0] - pipes.loss(spec) + gain(spec) for l, Xe in eps.items()}
+    Xs = X[:, :e + nx]
+    Xu = np.hstack((X[:, :e], X[:, e + nx:]))
+    L = est.lift(X, episode_feature=ep)
+    R = est.retract(L, episode_feature=ep)
+    why = _tails(f'{name}retract(lift(X))', R, X, ep, r_of, exact)
+    if why:
+        return why
+    Ls = np.asarray(est.lift_state(Xs, episode_feature=ep), dtype=float)
+    Lu = np.asarray(est.lift_input(X, episode_feature=ep), dtype=float)
+    ns = Ls.shape[1] - e
+    L = np.asarray(L, dtype=float)
+    if Ls.shape[0] != L.shape[0] or ns < 0 or not _same(Ls, L[:, :e + ns], exact_lift):
+        return f'{name}lift_state(state) is not the leading lifted-state block of lift(X)'
+    if not _same(Lu, np.hstack((L[:, :e], L[:, e + ns:])), exact_lift):
+        return f'{name}lift_input(X) is not the trailing lifted-input block of lift(X)'
+    why = _tails(f'{name}retract_state(lift_state(state))', est.retract_state(Ls, episode_feature=ep), Xs, ep, r_of, exact)
+    if why:
+        return why
+    return _tails(f'{name}retract_input(lift_input(X))', est.retract_input(Lu, episode_feature=ep), Xu, ep, r_of, exact)
+
+
+def _routes(case, est, X, Xt, Xr):
+    """the public routes other than transform / inverse_transform state the same round trip: lift / retract,
+    lift_state / retract_state, lift_input / retract_input, each with the fitted episode flag, with the flag left to
+    default, and with the other flag (one episode without labels on an estimator fitted with labels; labelled episodes
+    on an estimator fitted without)."""
+    spec, ep, nx = case['spec'], bool(case['ep']), case['nx']
+    exact = not (pipes.kinds_in(spec) & {'sk', 'angle'})
+    exact_lift = pipes.kinds_in(spec) <= {'poly', 'bilinear', 'const', 'delay', 'split', 'pipe'}
+    X = np.asarray(X, dtype=float)
+    # own count against what inverse_transform(transform(X)) returned
+    eps, eps_r = st.episodes(X, ep), st.episodes(Xr, ep)
+    for l, Xe in eps.items():
+        want = Xe.shape[0] - pipes.loss(spec) + gain(spec)
+        if l in eps_r and eps_r[l].shape[0] != want:
+            return (f'episode {l}: {Xe.shape[0]} samples, inverse_transform(transform(X)) returns {eps_r[l].shape[0]}, '
+                    f'the delays of the pipeline give {want}')
+    # default flag (None): the routes are transform / inverse_transform themselves
+    if not _same(est.lift(X), Xt, exact) or not _same(est.retract(Xt), Xr, exact):
+        return 'lift(X) / retract(Xt) with the default episode flag differ from transform(X) / inverse_transform(Xt)'
+    e = 1 if ep else 0
+    Ls0 = est.lift_state(X[:, :e + nx])
+    Rs0 = est.retract_state(Ls0)
+    why = _tails('retract_state(lift_state(state)) with the default episode flag', Rs0, X[:, :e + nx], ep,
+                 {l: eps_r[l].shape[0] for l in eps if l in eps_r}, exact)
+    if why:
+        return why
+    why = _routes_on('', est, X, ep, nx, spec, exact, exact_lift)
+    if why:
+        return why
+    if ep:
+        # one episode handed over without its label column
+        l = sorted(eps)[len(eps) // 2]
+        return _routes_on(f'[episode {l} alone, episode_feature=False] ', est, eps[l], False, nx, spec, exact, exact_lift)
+    # the record and its time reversal as two labelled episodes
+    X2 = st.ref_combine([(3, X), (5, X[::-1, :])], True)
+    return _routes_on('[two labelled episodes, episode_feature=True] ', est, X2, True, nx, spec, exact, exact_lift)
 
 
 def probe_unwrap(rng):
@@ -107,6 +238,20 @@ def oracle(case, est=None):
         return f'transform / inverse_transform raised {type(ex).__name__}: {ex}'
 
 
+def _valid(case):
+    """every episode is long enough for the pipeline (shrinking must stay inside the property's domain: a too short
+    episode makes transform raise on any version of the code)"""
+    need = pipes.loss(case['spec']) + 1
+    if not case['rows']:
+        return False
+    if not case['ep']:
+        return len(case['rows']) >= need
+    n = {}
+    for r in case['rows']:
+        n[r[0]] = n.get(r[0], 0) + 1
+    return min(n.values()) >= need
+
+
 def population_search(ctx):
     """failing-input search over a fresh population (also used when an exception raised inside the implementation
     ended the correspondence run early)"""
@@ -123,10 +268,19 @@ def run(ctx):
                 'delays) x (n_states 1..3, n_inputs 0..2, episode feature on/off, 1..4 episodes of unequal '
                 'length, arbitrary labels, blocks or interleaved rows); algebraic trees on tagged integers '
                 '(exact), trees with opaque stages as symbolic terms evaluated with the fitted parameters '
-                '(rel 1e-9); non-trivial = at least one stage and two rows; distinct by case hash')
+                '(rel 1e-9); non-trivial = at least one stage and two rows; distinct by case hash; on every case the '
+                'other public routes as well: lift / retract, lift_state / retract_state, lift_input / retract_input '
+                'with the fitted episode flag, the default flag and the opposite flag (one unlabelled episode on an '
+                'estimator fitted with labels; the record and its time reversal as two labelled episodes on one '
+                'fitted without)')
     ctx.explanation = ('theorems C01_* (suffix-stable round trip through the whole tree); correspondence on '
                        'inverse_transform(transform(X)) and on the leading state columns of transform(X); '
-                       'oracle: the round trip evaluated directly on real estimators with float data')
+                       'oracle: the round trip evaluated directly on real estimators with float data; '
+                       'the state-only, input-only and episode-flag routes must return, per episode, the trailing '
+                       'samples of the original state / input columns themselves, as many as the delay arithmetic '
+                       'of the pipeline (loss max(dx,du), rebuilt min(dx,du), split = smaller branch) gives and as '
+                       'inverse_transform(transform(X)) returns; lift_state / lift_input must be the leading / '
+                       'trailing blocks of lift(X)')
     ctx.proof_obligations('Properties.C01', THEOREMS)
     drv = ctx.get_driver()
     cases = []
@@ -172,8 +326,11 @@ def run(ctx):
             bad.append(c)
         fc = st.float_case(ctx.rng, c)
         why = oracle(fc)
+        if angle_ok(fc['spec']):
+            for t in route_tags(fc):
+                ctx.count(t)
         if why:
-            small = st.shrink(fc, lambda x: oracle(x))
+            small = st.shrink(fc, lambda x: _valid(x) and oracle(x))
             ctx.fail(oracle(small) or why, small, {'kinds': sorted(pipes.kinds_in(c['spec']))})
 
     for _ in range(ctx.n(2, 10)):
